@@ -185,6 +185,7 @@ class DocGen:
         """Random walk from `state` (a derivative of parent's content expression) to a nullable state."""
         rs = self.rs
         kids: list[dict] = []
+        state0 = state
         if max_kids is None:
             max_kids = R.weighted([(1, 2), (2, 4), (3, 3), (4, 2), (6, 1)])
         inline_parent = rs.inline_content[parent]
@@ -231,6 +232,13 @@ class DocGen:
                 kids.append(child)
                 budget -= 2 + len(child["c"]) * 2
             state = rx.deriv(state, a)
+        if not rx.accepts(state0, [k["t"] for k in kids]):
+            # adjacent text nodes with equal marks merge into one child, which can break counted expressions
+            # such as "inline+ text": fall back to the minimal generatable filling
+            comp = self.completion(state0)
+            if comp is None:
+                raise AssertionError(f"cannot build valid content for {parent}")
+            kids = [self.min_node(a) for a in comp]
         return kids
 
     def doc(self, R: Draw, size: str = "small") -> dict:
